@@ -95,6 +95,9 @@ func (w *worker) stop() {
 	w.cmd.Wait()
 }
 
+// maxViolPerCheck: once this many counterexamples were found, remaining jobs are skipped.
+const maxViolPerCheck = 48
+
 func runJobs(jobs []Job, nworkers int) ([]*JobResult, error) {
 	if nworkers > len(jobs) {
 		nworkers = len(jobs)
@@ -105,6 +108,7 @@ func runJobs(jobs []Job, nworkers int) ([]*JobResult, error) {
 	results := make([]*JobResult, len(jobs))
 	var mu sync.Mutex
 	next := 0
+	nviolTotal := 0
 	var firstErr error
 	var wg sync.WaitGroup
 	for i := 0; i < nworkers; i++ {
@@ -129,8 +133,20 @@ func runJobs(jobs []Job, nworkers int) ([]*JobResult, error) {
 				}
 				k := next
 				next++
+				enough := nviolTotal >= maxViolPerCheck
 				mu.Unlock()
+				if enough {
+					// plenty of counterexamples already: the remaining cases are not explored
+					// (only ever happens on a tree that violates the property)
+					results[k] = &JobResult{ID: jobs[k].ID, Harness: jobs[k].Harness, Params: jobs[k].Params, Skipped: true, Ends: map[string]int{}, Reached: map[string]int{}}
+					continue
+				}
 				r, err := w.run(jobs[k])
+				if r != nil {
+					mu.Lock()
+					nviolTotal += len(r.Violations)
+					mu.Unlock()
+				}
 				if err != nil {
 					// restart once; record as engine error
 					results[k] = &JobResult{ID: jobs[k].ID, Harness: jobs[k].Harness, Params: jobs[k].Params, EngineErr: err.Error()}
@@ -479,7 +495,7 @@ func runCheck(spec *CheckSpec, tier string) int {
 		funcs, stubs                                                                                 map[string]bool
 		engineErrs                                                                                   []string
 		truncated                                                                                    int
-		vacuous                                                                                      int
+		vacuous, skipped                                                                             int
 		samples                                                                                      []interface{}
 		perHarness                                                                                   map[string]int
 	}{ends: map[string]int{}, reached: map[string]int{}, funcs: map[string]bool{}, stubs: map[string]bool{}, perHarness: map[string]int{}}
@@ -527,6 +543,10 @@ func runCheck(spec *CheckSpec, tier string) int {
 		}
 		if r.Truncated && len(r.Violations) == 0 {
 			agg.truncated++
+		}
+		if r.Skipped {
+			agg.skipped++
+			continue
 		}
 		if r.Ends["ok"] == 0 && len(r.Violations) == 0 && r.EngineErr == "" {
 			agg.vacuous++
@@ -682,6 +702,9 @@ func runCheck(spec *CheckSpec, tier string) int {
 		nviol++
 		fmt.Printf("VIOLATION property=%s replay=%s\n  %s\n", spec.ID, rp, xv)
 		status = 1
+	}
+	if agg.skipped > 0 {
+		agg.engineErrs = append(agg.engineErrs, fmt.Sprintf("%d jobs not explored: the check already had %d counterexamples", agg.skipped, maxViolPerCheck))
 	}
 	broken := false
 	if len(agg.engineErrs) > 0 || agg.inconcl > 0 || agg.truncated > 0 || agg.crossBad > 0 || diffBad > 0 {
